@@ -60,6 +60,8 @@ func (p c10Pos) inTunnel() bool {
 	return !p.Wire && p.Proto == "TO2" && ((p.Phase == "req" && p.Msg >= 66) || (p.Phase == "resp" && p.Msg >= 65))
 }
 
+var c10StoreMethods = append(append([]string(nil), c03Methods...), "SetRVBlob", "RVBlob", "SetTO0SignNonce", "TO0SignNonce", "SetTO1ProofNonce", "TO1ProofNonce")
+
 var c10KexNames = []string{"ECDH256", "ASYMKEX2048", "", "ECDH", "ecdh256", "DHKEXid16", "ASYMKEX4096", "ECDH521"}
 
 // cipher suite identifiers: the COSE registry range around the defined AEAD
@@ -162,6 +164,11 @@ func (p *c10) Prepare(t *testing.T, tier string, seed uint64) {
 				}
 				for g := 0; g < nb; g++ {
 					plans = append(plans, C10Plan{Seed: base.Seed, Key: f.Key, Enc: f.Enc, Proto: proto, Phase: pos.Phase, Msg: pos.Msg, Occur: pos.Occur, Wire: pos.Wire, Kind: "bomb", Ord: g})
+				}
+				if pos.Phase == "req" && (pos.Msg == 10 || pos.Msg == 20 || pos.Msg == 30 || pos.Msg == 60) && fi == 0 {
+					for g := 0; g < 3*len(c10StoreMethods); g++ {
+						plans = append(plans, C10Plan{Seed: base.Seed, Key: f.Key, Enc: f.Enc, Proto: proto, Phase: pos.Phase, Msg: pos.Msg, Occur: pos.Occur, Kind: "store", Ord: g})
+					}
 				}
 				if pos.Phase == "req" && pos.Msg == 60 && fi == 0 {
 					n := len(c10KexNames) * len(c10CipherIDs)
@@ -564,6 +571,22 @@ func c10Run(env *Env, pl *C10Plan, collect map[c10Pos][]byte, baseAlloc uint64) 
 			if _, ok := collect[p2]; !ok && protoOf(mt) == pl.Proto {
 				collect[p2] = append([]byte(nil), ev.Body...)
 			}
+		}
+		if pl.Kind == "store" {
+			// one call of the serving node's state backend fails while this
+			// protocol runs (armed at its first request)
+			if !tampered && ev.Phase == "req" && protoOf(mt) == pl.Proto {
+				if node := s.Nodes[ev.To]; node != nil && node.Sim != nil {
+					m := c10StoreMethods[pl.Ord%len(c10StoreMethods)]
+					nth := 1 + (pl.Ord/len(c10StoreMethods))%3
+					node.Sim.FailAt[m] = node.Sim.Calls[m] + nth
+					tampered = true
+					runtime.ReadMemStats(&ms0)
+					desc = fmt.Sprintf("state backend of %s fails call %d of %s", ev.To, nth, m)
+					ev.Fault("store-error")
+				}
+			}
+			return
 		}
 		if pl.Kind == "none" || tampered || pos.inTunnel() || ev.Phase != pl.Phase || mt != pl.Msg || n != pl.Occur || protoOf(mt) != pl.Proto || p2.Wire != pl.Wire {
 			return
